@@ -20,6 +20,9 @@ Definition CH_COLON : char := 58%N.
 Definition str_of_string (s : String.string) : str :=
   List.map (fun a => Ascii.N_of_ascii a) (String.list_ascii_of_string s).
 
+(* final bytes of a control sequence: 0x40-0x7E *)
+Definition is_final (c : char) : bool := (64 <=? c)%N && (c <=? 126)%N.
+
 (* ---------- results with Python exception classes ---------- *)
 Inductive err := TypeError | ValueError | IndexError.
 Inductive res (A : Type) := OK (a : A) | Err (e : err).
